@@ -302,7 +302,16 @@ theorem recip_ofIvl (n : Nat) (c d : Rat) (hn : 0 < n) (hcd : c ≤ d) (h0 : 0 <
   have hc : c ≠ 0 := by rcases h0 with h | h <;> intro e <;> linarith
   have hd : d ≠ 0 := by rcases h0 with h | h <;> intro e <;> linarith
   have hle : 1 / d ≤ 1 / c := one_div_anti c d hcd h0
+  have hs : straddlesZero (ofIvl n c d) = false := by
+    rcases h0 with h | h
+    · exact straddlesZero_false_pos _ (fun x hx => by
+        simp only [ofIvl] at hx; rw [List.eq_of_mem_replicate hx]; exact h)
+        (fun x hx => by simp only [ofIvl] at hx; rw [List.eq_of_mem_replicate hx]; exact lt_of_lt_of_le h hcd)
+    · exact straddlesZero_false_neg _ (fun x hx => by
+        simp only [ofIvl] at hx; rw [List.eq_of_mem_replicate hx]; exact lt_of_le_of_lt hcd h)
+        (fun x hx => by simp only [ofIvl] at hx; rw [List.eq_of_mem_replicate hx]; exact h)
   unfold recip
+  rw [hs]
   simp only [ofIvl, hasZero_replicate n _ hn, hc, hd, decide_false, Bool.or_self, Bool.false_eq_true,
     if_false, List.reverse_replicate, List.map_replicate]
   exact mk_ofIvl n false _ _ hn hle
